@@ -182,6 +182,18 @@ def pm_family(tier):
         out.append(Prog("non-literal-pattern", "ident/" + m, "pub fn f(mut p: konst::Parser<'_>, x: &str) { konst::parser_method!{p, %s; x} }\n" % m,
                         "pub fn f(mut p: konst::Parser<'_>) { konst::parser_method!{p, %s; \"a\" | \"b\"} }\n" % m,
                         [dict(msg="Expected one of"), dict(msg="string literal")]))
+    # a non-literal hidden inside concat!(..): first, last or only piece; a const, a variable, a nested macro call that is not a literal
+    for shape, inner in (("concat-last", 'concat!("a", X)'), ("concat-first", 'concat!(X, "a")'), ("concat-only", "concat!(X)"),
+                         ("concat-var", 'concat!("a", x)'), ("concat-nested", 'concat!("a", concat!(X))')):
+        for m in ("strip_prefix", "rfind_skip"):
+            out.append(Prog("non-literal-pattern", "%s/%s" % (shape, m),
+                            "pub const X: &str = \"b\";\npub fn f(mut p: konst::Parser<'_>, x: &str) -> u8 { konst::parser_method!{p, %s; %s => 1, _ => 0} }\n" % (m, inner),
+                            "pub const X: &str = \"b\";\npub fn f(mut p: konst::Parser<'_>, x: &str) -> u8 { konst::parser_method!{p, %s; concat!(\"a\", \"b\") => 1, _ => 0} }\n" % m,
+                            [dict(msg="Expected one of"), dict(msg="string literal")]))
+    out.append(Prog("non-literal-pattern", "concat-last/trim_start_matches",
+                    "pub const X: &str = \"b\";\npub fn f(mut p: konst::Parser<'_>) { konst::parser_method!{p, trim_start_matches; concat!(\"a\", X)} }\n",
+                    "pub fn f(mut p: konst::Parser<'_>) { konst::parser_method!{p, trim_start_matches; concat!(\"a\", \"b\")} }\n",
+                    [dict(msg="Expected one of"), dict(msg="string literal")]))
     out.append(Prog("non-literal-pattern", "byte-string", pm('b"a" => 1, _ => 0'), pm(good), [dict(msg="Expected one of"), dict(msg="string literal")]))
     out.append(Prog("non-literal-pattern", "char", pm("'a' => 1, _ => 0"), pm(good), [dict(msg="Expected one of"), dict(msg="string literal")]))
     out.append(Prog("missing-default", "no trailing comma", pm('"a" => 1'), pm(good), [dict(msg="no rules expected"), dict(msg="expected more branches"), dict(msg="unexpected end of macro")]))
